@@ -35,12 +35,30 @@ static void strip_newline_from(char *name) {
         name[strlen(name)-1] = '\0';
 }
 
+/* Reads one line of any length, in pieces if it has to, into a buffer that grows as needed */
+static int read_whole_line(FILE *file, char **line, int *size) {
+    int length = read_line(file, *line, *size - 1);
+    while (length == *size - 2 && !complete_line_read(*line)) {
+        /* the buffer is full and the line goes on, e.g. the symbol of a test with a very long name */
+        int more;
+        char *larger = (char *)realloc(*line, (size_t)*size * 2);
+        if (larger == NULL)
+            break;
+        *line = larger;
+        more = read_line(file, *line + length, *size + 1);
+        *size *= 2;
+        if (more < 0)
+            break;
+        length += more;
+    }
+    return length;
+}
+
 static void add_all_tests_from(FILE *nm_output_pipe, CgreenVector *tests, bool verbose) {
-    char line[1000];
-    int length = read_line(nm_output_pipe, line, sizeof(line)-1);
+    int size = 1000;
+    char *line = (char *)malloc(size);
+    int length = read_whole_line(nm_output_pipe, &line, &size);
     while (length > -1) {       /* TODO: >0 ? */
-        if (!complete_line_read(line))
-            PANIC("Too long line in nm output");
         if (contains_cgreen_spec(line) && is_definition(line)) {
             strip_newline_from(line);
             TestItem *test_item = create_test_item_from(cgreen_spec_start_of(line));
@@ -49,8 +67,9 @@ static void add_all_tests_from(FILE *nm_output_pipe, CgreenVector *tests, bool v
                        test_item->specification_name);
             cgreen_vector_add(tests, test_item);
         }
-        length = read_line(nm_output_pipe, line, sizeof(line)-1);
+        length = read_whole_line(nm_output_pipe, &line, &size);
     }
+    free(line);
 }
 
 CgreenVector *discover_tests_in(const char *filename, bool verbose) {
